@@ -5,6 +5,10 @@ It is a partial evaluator: control points of a segment, matrix entries, loop bou
 arity of a segment and string/bool flags are resolved at translation time; everything numeric becomes a Coq
 term over the scalar record `O : Ops T`.  Anything outside the supported fragment raises Untranslatable,
 which the check driver reports as a broken obligation (never silently skipped).
+
+Data-dependent `while` loops become fuelled Fixpoints (FunTx.stmt_while) and the modelled exceptions (IndexError of
+l[-1] / l[k], ValueError / OverflowError of math.floor) values of `outcome`; which functions may loop or raise is
+declared in EFFECTS and checked.  Gen/Sample.v (sampling loops, path evaluation, flatteners) is written this way.
 """
 import ast, sys, os, hashlib, json
 from fractions import Fraction
@@ -14,6 +18,10 @@ SRC = os.environ.get('BEZIERS_SRC', '/repo/src/beziers')
 
 class Untranslatable(Exception):
     pass
+
+
+class EffectInJoin(Untranslatable):
+    """an effectful operation under a continuation that is not the function result (a branch of an `if` translated as a value)"""
 
 
 # ----------------------------------------------------------------------------- values
@@ -32,24 +40,33 @@ SEGPROJ = {'seg2': ['l0', 'l1'], 'seg3': ['q0', 'q1', 'q2'], 'seg4': ['c0', 'c1'
 SEGCON = {2: 'L2', 3: 'Q3', 4: 'C4'}
 SEGTY = {2: 'seg2', 3: 'seg3', 4: 'seg4'}
 CLASS_OF = {'P': 'Point', 'seg2': 'Line', 'seg3': 'QuadraticBezier', 'seg4': 'CubicBezier',
-            'M': 'AffineTransformation', 'BB': 'BoundingBox'}
+            'M': 'AffineTransformation', 'BB': 'BoundingBox', 'PATH': 'BezierPath'}
+# 'PATH': a BezierPath as the list of its segments, `list (segment T)` (what asSegments() returns; the Nodelist representation
+# and the conversion inside asSegments are outside the model).  'SEG': one element of it, the sum type `segment T`: attribute
+# access and method calls on it dispatch on the constructor to the definitions generated for the three classes.
+SEGSUM = [('SLine', 'seg2'), ('SQuad', 'seg3'), ('SCubic', 'seg4')]
 TY_OF_CLASS = {v: k for k, v in CLASS_OF.items()}
 PFX = {'Point': 'Point', 'Line': 'Line', 'QuadraticBezier': 'Quad', 'CubicBezier': 'Cubic',
-       'AffineTransformation': 'Affine', 'BoundingBox': 'BBox', 'CurveFit': 'CurveFit'}
+       'AffineTransformation': 'Affine', 'BoundingBox': 'BBox', 'CurveFit': 'CurveFit', 'BezierPath': 'Path'}
 FILE_OF = {'Point': 'Point', 'Line': 'Line', 'QuadraticBezier': 'Quad', 'CubicBezier': 'Cubic',
            'AffineTransformation': 'Affine', 'BoundingBox': 'BBox', 'utils': 'Utils', 'curvedistance': 'CurveDist',
-           'geometricshapes': 'Shapes', 'curvefitter': 'Fit', 'CurveFit': 'Fit'}
-FILE_ORDER = ['Utils', 'Point', 'Affine', 'BBox', 'Line', 'Quad', 'Cubic', 'Shapes', 'Fit', 'CurveDist']
+           'geometricshapes': 'Shapes', 'curvefitter': 'Fit', 'CurveFit': 'Fit', 'BezierPath': 'Sample'}
+FILE_ORDER = ['Utils', 'Point', 'Affine', 'BBox', 'Line', 'Quad', 'Cubic', 'Shapes', 'Fit', 'CurveDist', 'Sample']
 # leaves of the import graph: no other generated file imports them (so adding one leaves the text of the others unchanged)
-LEAF_FILES = {'Shapes', 'Fit'}
+LEAF_FILES = {'Shapes', 'Fit', 'Sample'}
+# methods emitted into another file than the one of the receiver's class (keyed by the DEFINING class)
+FILE_OF_DEFCLASS = {'SampleMixin': 'Sample'}
+# ... or keyed by the method name (the flatteners call the sampling methods, so they live with them)
+FILE_OF_METHOD = {'flatten': 'Sample'}
 # modules whose module-level constants are emitted as named definitions (elsewhere they are inlined at the use)
 NAMED_GLOBAL_MODULES = {'path/geometricshapes.py'}
 MODULE_OF_CLASS = {'Point': 'point.py', 'Line': 'line.py', 'QuadraticBezier': 'quadraticbezier.py',
                    'CubicBezier': 'cubicbezier.py', 'Segment': 'segment.py',
                    'AffineTransformation': 'affinetransformation.py', 'BoundingBox': 'boundingbox.py',
                    'ArcLengthMixin': 'utils/arclengthmixin.py', 'IntersectionsMixin': 'utils/intersectionsmixin.py',
-                   'SampleMixin': 'utils/samplemixin.py', 'CurveFit': 'utils/curvefitter.py'}
-MRO = {'Point': ['Point'], 'AffineTransformation': ['AffineTransformation'], 'BoundingBox': ['BoundingBox'], 'CurveFit': ['CurveFit'],
+                   'SampleMixin': 'utils/samplemixin.py', 'CurveFit': 'utils/curvefitter.py', 'BezierPath': 'path/__init__.py'}
+MRO = {'BezierPath': ['BezierPath', 'SampleMixin'],     # BooleanOperationsMixin (pyclipper) is outside the model
+       'Point': ['Point'], 'AffineTransformation': ['AffineTransformation'], 'BoundingBox': ['BoundingBox'], 'CurveFit': ['CurveFit'],
        'Line': ['Line', 'Segment', 'IntersectionsMixin', 'SampleMixin'],
        'QuadraticBezier': ['QuadraticBezier', 'ArcLengthMixin', 'Segment', 'IntersectionsMixin', 'SampleMixin'],
        'CubicBezier': ['CubicBezier', 'ArcLengthMixin', 'Segment', 'IntersectionsMixin', 'SampleMixin']}
@@ -61,7 +78,7 @@ def tmatch(a, b):
     if a == '?': return b
     if b == '?': return a
     if isinstance(a, tuple) and isinstance(b, tuple) and a[0] == b[0]:
-        if a[0] in ('L', 'O'):
+        if a[0] in ('L', 'O', 'F', 'X'):
             m = tmatch(a[1], b[1])
             return (a[0], m) if m is not None else None
         if a[0] == 'T' and len(a[1]) == len(b[1]):
@@ -78,10 +95,15 @@ def coqty(t):
     if t in SEGN: return f'{t} T'
     if t == 'M': return 'mat3 T'
     if t == 'BB': return 'bbox T'
+    if t == 'SEG': return 'segment T'
+    if t == 'EDGE': return '(seg2 T * option (segment T))%type'
+    if t == 'PATH': return 'list (segment T)'
     if t == 'IX': return '(T * pt T * T)%type'
     if isinstance(t, tuple):
         if t[0] == 'L': return f'list ({coqty(t[1])})'
         if t[0] == 'O': return f'option ({coqty(t[1])})'
+        if t[0] == 'F': return f'option ({coqty(t[1])})'       # fuelled: None = the fuel ran out
+        if t[0] == 'X': return f'outcome ({coqty(t[1])})'      # may raise: Returns v | Raises e
         if t[0] == 'T': return '(' + ' * '.join(coqty(x) for x in t[1]) + ')%type'
     raise Untranslatable(f'no Coq type for {t!r}')
 
@@ -180,7 +202,49 @@ SIG = {
     ('CurveFit', 'computeHook'): ['P', 'P', 'S', 'seg4', 'S'],
     ('CurveFit', 'estimateBi'): ['seg4', ('L', 'P'), ('L', 'S')],
     ('CurveFit', 'chordLengthParameterize'): [('L', 'P')],
+    ('*seg', 'sample'): ['S'], ('*seg', 'regularSampleTValue'): ['S'], ('*seg', 'regularSample'): ['S'],
+    ('BezierPath', 'pointAtTime'): ['S'], ('BezierPath', 'lengthAtTime'): ['S'],
+    ('*seg', 'flatten'): ['S'],
+    ('BezierPath', 'sample'): ['S'], ('BezierPath', 'regularSampleTValue'): ['S'], ('BezierPath', 'regularSample'): ['S'],
 }
+# effect table: what a function can do besides returning a value.  'fuel': it contains a data-dependent `while` loop (or calls
+# such a function): the definition takes `fuel : nat` first -- the number of iterations every loop invocation may use -- and
+# returns `option`, None = the fuel ran out.  'exc': it can raise one of the modelled exceptions (`pyexc`): it returns
+# `outcome`.  Both: `option (outcome _)`.  Like the signature table this is declared and CHECKED: a loop or a raising
+# operation in a function that does not declare it is Untranslatable, and so is a declared effect that never occurs.
+EFFECTS = {
+    ('*seg', 'sample'): {'fuel'}, ('*seg', 'regularSampleTValue'): {'fuel', 'exc'}, ('*seg', 'regularSample'): {'fuel', 'exc'},
+    ('BezierPath', 'pointAtTime'): {'exc'}, ('BezierPath', 'lengthAtTime'): {'exc'},
+    ('Line', 'flatten'): set(), ('QuadraticBezier', 'flatten'): {'fuel'}, ('CubicBezier', 'flatten'): {'fuel', 'exc'},
+    # SampleMixin on a path: pointAtTime / lengthAtTime raise, inside the loops too
+    ('BezierPath', 'sample'): {'fuel', 'exc'}, ('BezierPath', 'regularSampleTValue'): {'fuel', 'exc'}, ('BezierPath', 'regularSample'): {'fuel', 'exc'},
+}
+# 'EDGE': a Line together with its `_orig` attribute, `(seg2 T * option (segment T))`: Some c when `line._orig = c` has been
+# executed on it, None for a Line that was never tagged (reading the attribute would be an AttributeError; nothing reads it).
+# A local variable becomes an EDGE by the statement pair `x = Line(..); x._orig = <segment>` (the object is fresh and unshared).
+# Receivers whose own `_orig` is part of the result come in as EDGE:
+SELF_TY = {('Line', 'flatten'): 'EDGE'}
+
+
+def effects_of(cls, name):
+    if (cls, name) in EFFECTS: return frozenset(EFFECTS[(cls, name)])
+    if cls in ('Line', 'QuadraticBezier', 'CubicBezier'): return frozenset(EFFECTS.get(('*seg', name), ()))
+    return frozenset()
+
+
+def mtype(eff, t):
+    """the result type of a function with effects `eff` returning t"""
+    if 'exc' in eff: t = ('X', t)
+    if 'fuel' in eff: t = ('F', t)
+    return t
+
+
+def is_mtype(t):
+    """effects carried by a result type, or None for a plain type"""
+    if isinstance(t, tuple) and t[0] == 'F':
+        return ({'fuel', 'exc'}, t[1][1]) if isinstance(t[1], tuple) and t[1][0] == 'X' else ({'fuel'}, t[1])
+    if isinstance(t, tuple) and t[0] == 'X': return ({'exc'}, t[1])
+    return None
 CLASSMETHODS = {('Point', 'fromAngle'), ('AffineTransformation', 'translation'), ('AffineTransformation', 'scaling'),
                 ('AffineTransformation', 'reflection'), ('AffineTransformation', 'rotation'),
                 ('CurveFit', 'computeHook'), ('CurveFit', 'estimateBi'), ('CurveFit', 'chordLengthParameterize')}
@@ -206,6 +270,7 @@ class Translator:
         self.inprogress = set()
         self.fingerprints = {}
         self.counter = 0
+        self.loops = {}       # name of an emitted loop Fixpoint -> its text
 
     # ------------------------------------------------------------------ helpers
     def fresh(self, base):
@@ -216,6 +281,7 @@ class Translator:
         """coerce to scalar text"""
         if v.ty == 'S': return v.tx
         if v.ty == 'I': return f'(ofZ O ({v.const}))'
+        if v.ty == 'LEN': return f'(ofZ O (Z.of_nat (length {v.tx})))'      # len(l) of a dynamic list meeting a float
         raise Untranslatable(f'expected scalar, got {v.ty!r}')
 
     def text(self, v):
@@ -344,10 +410,10 @@ class Translator:
             selfty = None
         else:
             path, fd, defcls = find_def(cls, name)
-            file = FILE_OF[cls]
+            file = FILE_OF_METHOD.get(name, FILE_OF_DEFCLASS.get(defcls, FILE_OF[cls]))
             cname = f'{PFX[cls]}_{name}'
             argtys = sig_of(cls, name, len(fd.args.args) - 1)
-            selfty = TY_OF_CLASS.get(cls, 'CLS')
+            selfty = SELF_TY.get((cls, name), TY_OF_CLASS.get(cls, 'CLS'))
             if (cls, name) in OPT_SELF: selfty = ('O', selfty)
         self.fingerprints[f'{path}:{defcls or ""}.{name}'] = fingerprint(fd)
         params = [a.arg for a in fd.args.args]
@@ -355,6 +421,8 @@ class Translator:
         if is_cm != ('classmethod' in decorators(fd)): raise Untranslatable(f'{cls}.{name}: classmethod table and @classmethod decorator disagree')
         env = {}
         coqparams = []
+        eff = effects_of(cls, name)
+        if 'fuel' in eff: coqparams.append('(fuel : nat)')
         if selfty is not None:
             if is_cm:
                 env[params[0]] = Val('K', const=('class', cls))
@@ -381,7 +449,9 @@ class Translator:
                 coqparams.append(f'(v_{pn} : {coqty(ty)})')
         cname += suffix
         fx = FunTx(self, path, cls if selfty else None, fd)
+        fx.effects, fx.cname, fx.file = eff, cname, file
         mut = (cls, name) in MUTATORS
+        if eff and (mut or (cls, name) in MUTATED_PARAM or (cls, name) in OPT_SELF): raise Untranslatable(f'{cls}.{name}: a mutator with effects')
         if (cls, name) in MUTATED_PARAM:
             mp = MUTATED_PARAM[(cls, name)]
             if mp not in env: raise Untranslatable(f'{cls}.{name}: no parameter {mp}')
@@ -391,6 +461,9 @@ class Translator:
         elif mut:
             cont = lambda e: e[params[0]]
             ret = lambda v, e: e[params[0]] if (v.ty == 'K' and v.const is None) else fx.fail('mutator returns a value')
+        elif eff:
+            cont = lambda e: Val('K', const=None)
+            ret = lambda v, e: fx.mreturn(v)
         else:
             cont = lambda e: Val('K', const=None)
             ret = lambda v, e: v
@@ -418,6 +491,11 @@ class Translator:
         text = self.text(body)
         rty = self.rtype(body) if not (body.ty == 'K' and body.const is None) else None
         if rty is None: raise Untranslatable(f'{cls}.{name} returns None')
+        if eff:
+            if is_mtype(rty) is None or is_mtype(rty)[0] != set(eff): raise Untranslatable(f'{cls}.{name}: result {rty!r} does not carry the declared effects {sorted(eff)}')
+            if fx.pending: raise Untranslatable(f'{cls}.{name}: unflushed effects')
+            for e_ in eff:
+                if e_ not in fx.occurred: raise Untranslatable(f'{cls}.{name}: declared effect {e_!r} never occurs')
         src = f'(* {path}: {defcls + "." if defcls else ""}{name}, line {fd.lineno} *)\n'
         self.out[file].append(src + f'Definition {cname} {{T : Type}} (O : Ops T) {" ".join(coqparams)} : {coqty(rty)} :=\n  {text}.\n')
         self.inprogress.discard(key)
@@ -494,6 +572,22 @@ class FunTx:
         self.localfuns = {}
         self.live_stack = []
         self.counter = 0
+        # effects (see EFFECTS): what the function being translated may do, what has occurred so far, the effectful operations of
+        # the statement being translated that still have to be wrapped around it (`pending`), and where we are:
+        #   ctx 'fun'  : statement level of the function body (its declared effects may be flushed here)
+        #   ctx 'loop' : body of a `while` loop, whose Fixpoint returns `option`: only running out of fuel may be flushed
+        #   ctx 'pure' : body of a fold / inlined function / comprehension: nothing may be flushed
+        self.effects, self.cname, self.file = frozenset(), None, None
+        self.occurred = set()
+        self.pending = []
+        self.ctx_stack = ['fun']
+        self.pure_depth = 0          # > 0: inside an expression that Python evaluates conditionally or repeatedly
+        self.fuel_names = ['fuel']   # name of the fuel budget in the current context
+        self.fuel_used = [False]
+        self.loop_stack = []         # (exit, again) continuations of the enclosing `while`; None under a `for`
+        self.loop_ids = {}
+        self.loop_flags = []         # per enclosing while: {'exc': does its body raise}
+        self.trial = 0               # > 0: translating a loop body only to infer the types of its carried variables
 
     def fresh(self, base):
         self.counter += 1
@@ -571,11 +665,11 @@ class FunTx:
                 left = right
             return self.conj(parts, 'andb')
         if isinstance(n, ast.BoolOp):
-            vs = [self.truth(self.expr(v, env), n) for v in n.values]
+            vs = [self.truth(self.expr(n.values[0], env), n)] + self.purely(lambda: [self.truth(self.expr(v, env), n) for v in n.values[1:]])
             return self.conj(vs, 'andb' if isinstance(n.op, ast.And) else 'orb')
         if isinstance(n, ast.IfExp):
             c = self.truth(self.expr(n.test, env), n)
-            a, b = self.expr(n.body, env), self.expr(n.orelse, env)
+            a, b = self.purely(lambda: (self.expr(n.body, env), self.expr(n.orelse, env)))
             if c.ty == 'K': return a if c.const else b
             return self.join(c, a, b, n)
         if isinstance(n, ast.Attribute):
@@ -640,7 +734,7 @@ class FunTx:
 
     def binop(self, op, a, b, n):
         tr = self.tr
-        num = lambda v: v.ty in ('S', 'I')
+        num = lambda v: v.ty in ('S', 'I', 'LEN')
         if a.ty == 'I' and b.ty == 'I':
             x, y = a.const, b.const
             if op == 'Add': return Val('I', const=x + y)
@@ -761,6 +855,16 @@ class FunTx:
             return self.property_or_method(v, a, n)
         if v.ty == 'UBB' and a in UNSET_BOX:
             return v.const[a] if v.const[a] is not None else Val('K', const=None)
+        if v.ty == 'PATH':
+            if a == 'asSegments':
+                self.tr.fingerprints['path/__init__.py:BezierPath.asSegments'] = fingerprint(find_def('BezierPath', 'asSegments')[1])
+                return Val('K', const=('asSegments', v))
+            return self.property_or_method(v, a, n)
+        if v.ty == 'SEG':
+            kinds = {('property' in decorators(find_def(CLASS_OF[t], a)[1])) for _, t in SEGSUM if self.has_attr(CLASS_OF[t], a)}
+            if len(kinds) != 1 or not all(self.has_attr(CLASS_OF[t], a) for _, t in SEGSUM): self.fail(f'attribute .{a} is not the same kind of thing in the three classes of segment', n)
+            if kinds == {True}: return self.seg_dispatch(v, lambda c, sv: self.callfun(c, a, [sv], n), n)
+            return Val('K', const=('bounddyn', a, v))
         if v.ty == 'IX':
             if a == 't1': return Val('S', f'(fst (fst {v.tx}))')
             if a == 'point': return Val('P', f'(snd (fst {v.tx}))')
@@ -772,6 +876,32 @@ class FunTx:
             if a == 'bez2': return v.items[1]
             if a in ('D', 'S'): return Val('K', const=('cdfmethod', a, v))
         self.fail(f'attribute .{a} of {v.ty!r}', n)
+
+    def has_attr(self, cls, a):
+        try: find_def(cls, a); return True
+        except KeyError: return False
+
+    def seg_dispatch(self, v, f, n):
+        """`match v with SLine s_ => f Line s_ | SQuad s_ => .. | SCubic s_ => .. end` for a value v of the sum type; results that are
+        segments of the receiver's own class (or tuples of them) are injected back into the sum"""
+        tr = self.tr
+        def inject(t, tx):
+            if t in SEGN: return 'SEG', f'({[c for c, k in SEGSUM if k == t][0]} {tx})'
+            if isinstance(t, tuple) and t[0] == 'T' and any(x in SEGN for x in t[1]):
+                names = [f'y{i}_' for i in range(len(t[1]))]
+                pat = names[0]
+                for nm in names[1:]: pat = f'({pat}, {nm})'
+                parts = [inject(x, nm) for x, nm in zip(t[1], names)]
+                return ('T', tuple(p[0] for p in parts)), f"(let '{pat} := {tx} in (" + ', '.join(p[1] for p in parts) + '))'
+            return t, tx
+        arms, tys = [], []
+        for con, t in SEGSUM:
+            r = self.purely(lambda: f(CLASS_OF[t], Val(t, 's_')))       # an effectful method cannot be dispatched inside an expression
+            if r.ty in ('K', 'FL', 'TUP'): self.fail('dispatch on the class of a segment yields translation-time structure', n)
+            ty, tx = inject(tr.rtype(r), tr.text(r))
+            arms.append(f'{con} s_ => {tx}'); tys.append(ty)
+        if any(t != tys[0] for t in tys): self.fail(f'the three classes of segment give different types: {tys!r}', n)
+        return Val(tys[0], f'(match {v.tx} with ' + ' | '.join(arms) + ' end)')
 
     def property_or_method(self, v, a, n):
         cls = CLASS_OF[v.ty]
@@ -785,8 +915,18 @@ class FunTx:
 
     def subscript(self, n, env):
         v = self.expr(n.value, env)
-        if isinstance(n.slice, ast.Slice): self.fail('slice', n)
+        def dynlist(v): return isinstance(v.ty, tuple) and v.ty[0] == 'L' and v.ty[1] != '?' and v.tx is not None
+        if isinstance(n.slice, ast.Slice):
+            sl = n.slice
+            if dynlist(v) and sl.lower is None and sl.step is None and sl.upper is not None:
+                k = self.expr(sl.upper, env)
+                if k.ty == 'S' and k.const == 'int': return Val(v.ty, f'(py_slice_to O {v.tx} {k.tx})')     # l[:k], k a Python int
+            self.fail('slice', n)
         i = self.expr(n.slice, env)
+        if dynlist(v) and i.ty == 'S' and i.const == 'int' and 'exc' in self.effects:
+            x = self.fresh('x')
+            self.push_effect({'effects': {'exc'}, 'what': 'indexing by a computed int (IndexError)', 'kind': 'index', 'text': f'{v.tx} {i.tx}', 'pat': x}, n)
+            return Val(v.ty[1], x)
         if v.ty in SEGN and i.ty == 'I':
             k = i.const if i.const >= 0 else i.const + SEGN[v.ty]
             if not 0 <= k < SEGN[v.ty]: self.fail('segment index out of range', n)
@@ -797,6 +937,14 @@ class FunTx:
         if v.ty == 'M' and i.ty == 'I':
             r = i.const
             return Val('FL', items=[Val('S', f'(m{r}{c} {v.tx})') for c in range(3)])
+        if isinstance(v.ty, tuple) and v.ty[0] == 'L' and v.ty[1] != '?' and i.ty == 'I' and v.tx is not None:
+            # a dynamic list indexed by a literal: l[0] where l is known to be h :: t, and l[-1] (IndexError when l is empty)
+            if i.const == 0 and isinstance(v.const, tuple) and v.const[0] == 'cons': return Val(v.ty[1], v.const[1])
+            if i.const == -1:
+                x = self.fresh('x')
+                self.push_effect({'effects': {'exc'}, 'what': 'indexing [-1] (IndexError)', 'kind': 'last', 'text': v.tx, 'pat': x}, n)
+                return Val(v.ty[1], x)
+            self.fail(f'index {i.const} of a list not known to be long enough', n)
         if isinstance(v.ty, tuple) and v.ty[0] == 'T' and i.ty == 'I':
             k, nn = i.const, len(v.ty[1])
             if k < 0: k += nn
@@ -831,9 +979,23 @@ class FunTx:
             e2 = dict(env); e2[x] = Val(et, 'v_' + x)
             t = it.tx
             if g.ifs:
-                cs = self.conj([self.truth(self.expr(c, e2), n) for c in g.ifs], 'andb')
+                cs = self.conj(self.purely(lambda: [self.truth(self.expr(c, e2), n) for c in g.ifs]), 'andb')
                 t = f'(filter (fun v_{x} => {self.tr.text(cs)}) {t})'
-            el = self.expr(n.elt, e2)
+            if self.pure_depth > 0 or g.ifs:
+                el = self.purely(lambda: self.expr(n.elt, e2))
+            else:
+                # the element may raise (never consume fuel): [f(x) for x in l] is then map_outcome, the first exception in list order wins
+                mark = len(self.pending)
+                el = self.expr(n.elt, e2)
+                ents = self.pending[mark:]
+                del self.pending[mark:]
+                if ents:
+                    if el.ty in ('K', 'FL', 'TUP'): self.fail('raising comprehension element of translation-time structure', n)
+                    body = self.in_ctx('comp', lambda: self.wrap(ents, f'(Returns {self.tr.text(el)})', 'comp', n))
+                    r = self.fresh('r')
+                    self.push_effect({'effects': {'exc'}, 'what': 'comprehension whose element may raise', 'kind': 'call',
+                                      'text': f'(map_outcome (fun v_{x} =>\n  {body}) {t})', 'pat': r}, n)
+                    return Val(('L', self.tr.rtype(el)), r)
             if isinstance(n.elt, ast.Name) and n.elt.id == x: return Val(('L', et), t)
             return Val(('L', self.tr.rtype(el)), f'(map (fun v_{x} => {self.tr.text(el)}) {t})')
         self.fail(f'comprehension over {it.ty!r}', n)
@@ -845,8 +1007,87 @@ class FunTx:
             cname, rty, file = self.tr.function(cls, name, consts)
         except KeyError:
             self.fail(f'cannot find {cls}.{name}', n)
+        if (cls, name) in SELF_TY and (not args or args[0].ty != SELF_TY[(cls, name)]):
+            self.fail(f'{cls}.{name} takes its receiver as a {SELF_TY[(cls, name)]!r}', n)
         argt = ' '.join(self.argtext(a) for a in args)
+        m = is_mtype(rty)
+        if m is not None:
+            # the callee consumes fuel and/or may raise: its result is bound around the statement being translated
+            eff, inner = m
+            fuel = self.budget() + ' ' if 'fuel' in eff else ''
+            r = self.fresh('r')
+            self.push_effect({'effects': set(eff), 'what': f'call of {cname}', 'kind': 'call', 'text': f'({cname} O {fuel}{argt})'.replace(' )', ')'), 'pat': r}, n)
+            return Val(inner, r)
         return Val(rty, f'({cname} O {argt})'.replace(' )', ')'))
+
+    # ------------------------------------------------------------------ effects
+    def purely(self, thunk):
+        self.pure_depth += 1
+        try: return thunk()
+        finally: self.pure_depth -= 1
+
+    def in_ctx(self, ctx, thunk):
+        self.ctx_stack.append(ctx)
+        try: return thunk()
+        finally: self.ctx_stack.pop()
+
+    def budget(self):
+        if 'fuel' not in self.effects: self.fail('a fuelled operation in a function not declared to use fuel (EFFECTS)')
+        self.fuel_used[-1] = True
+        self.occurred.add('fuel')
+        return self.fuel_names[-1]
+
+    def push_effect(self, ent, n):
+        if self.pure_depth > 0: self.fail(f'{ent["what"]} in an expression that is evaluated conditionally or repeatedly', n)
+        if not ent['effects'] <= set(self.effects): self.fail(f'{ent["what"]} in a function not declared with effects {sorted(ent["effects"])} (EFFECTS)', n)
+        self.pending.append(ent)
+
+    def raise_text(self, e, ctx=None):
+        """`raise e` as a result of the function being translated / of the enclosing loop / of one element of a comprehension"""
+        ctx = ctx or self.ctx_stack[-1]
+        if ctx == 'loop': return f'(Some (Raises {e}))'
+        if ctx == 'comp': return f'(Raises {e})'
+        return f'(Some (Raises {e}))' if 'fuel' in self.effects else f'(Raises {e})'
+
+    def mreturn(self, v):
+        tr = self.tr
+        if v.ty == 'K' and v.const is None: return v
+        t, tx = tr.rtype(v), tr.text(v)
+        if 'exc' in self.effects: tx = f'(Returns {tx})'
+        if 'fuel' in self.effects: tx = f'(Some {tx})'
+        return Val(mtype(self.effects, t), tx)
+
+    def flush(self, mark, r, node):
+        """wrap the effectful operations of one statement (pushed since `mark`) around the translation r of it and of what follows"""
+        ents = self.pending[mark:]
+        del self.pending[mark:]
+        if not ents: return r
+        if r.ty == 'K' and r.const is None: self.fail('effectful operation on a path that returns None', node)
+        if is_mtype(self.tr.rtype(r)) is None:
+            raise EffectInJoin(f'{self.path}:{getattr(node, "lineno", self.fd.lineno)} ({self.fd.name}): effectful operation where the continuation is not a function result')
+        return self.retext(r, self.wrap(ents, self.tr.text(r), self.ctx_stack[-1], node))
+
+    def wrap(self, ents, t, ctx, node):
+        # a loop body may raise only in a function that declares it; the loop's Fixpoint then returns option (outcome _)
+        allowed = {'fun': set(self.effects), 'loop': {'fuel'} | ({'exc'} & set(self.effects)), 'comp': {'exc'} & set(self.effects), 'pure': set()}[ctx]
+        for ent in reversed(ents):
+            if not ent['effects'] <= allowed: self.fail(f'{ent["what"]} inside a {ctx} body', node)
+            self.occurred |= ent['effects']
+            if ctx == 'loop' and 'exc' in ent['effects']: self.loop_flags[-1]['exc'] = True
+            if ent['kind'] == 'floor':
+                t = (f'if negb (eqb O {ent["text"]} {ent["text"]}) then {self.raise_text("PyValueError")}\n  else if isinf_ O {ent["text"]} then {self.raise_text("PyOverflowError")}\n'
+                     f'  else let {ent["pat"]} := (floor_ O {ent["text"]}) in\n  {t}')
+            elif ent['kind'] == 'index':
+                t = f'match py_index O {ent["text"]} with\n  | None => {self.raise_text("PyIndexError")}\n  | Some {ent["pat"]} =>\n  {t}\n  end'
+            elif ent['kind'] == 'last':
+                t = f'match last_error {ent["text"]} with\n  | None => {self.raise_text("PyIndexError")}\n  | Some {ent["pat"]} =>\n  {t}\n  end'
+            elif ent['effects'] == {'fuel'}:
+                t = f'match {ent["text"]} with\n  | None => None\n  | Some {ent["pat"]} =>\n  {t}\n  end'
+            elif ent['effects'] == {'exc'}:
+                t = f'match {ent["text"]} with\n  | Raises e_ => {self.raise_text("e_")}\n  | Returns {ent["pat"]} =>\n  {t}\n  end'
+            else:
+                t = f'match {ent["text"]} with\n  | None => None\n  | Some (Raises e_) => {self.raise_text("e_")}\n  | Some (Returns {ent["pat"]}) =>\n  {t}\n  end'
+        return t
 
     def argtext(self, a):
         t = self.tr.text(a)
@@ -932,6 +1173,7 @@ class FunTx:
             if name == 'int':
                 a = args[0]
                 if a.ty == 'I': return a
+                if a.ty == 'S' and a.const == 'int': return a       # int(math.floor(x)): already an int
                 return Val('S', f'(trunc_ O {tr.S(a)})')
             if name == 'sqrt': return Val('S', f'(sqrt_ O {tr.S(args[0])})')
             if name == 'isclose':
@@ -988,6 +1230,12 @@ class FunTx:
                 m = fv.const[1]
                 if m in ('sqrt', 'cos', 'sin', 'acos'): return Val('S', f'({m}_ O {tr.S(args[0])})')
                 if m in ('atan2', 'pow', 'copysign'): return Val('S', f'({m}_ O {tr.S(args[0])} {tr.S(args[1])})')
+                if m == 'floor' and 'exc' in self.effects:
+                    # math.floor raises ValueError on a NaN and OverflowError on an infinity; its result is an int
+                    x = tr.S(args[0])
+                    f_ = self.fresh('f')
+                    self.push_effect({'effects': {'exc'}, 'what': 'math.floor (ValueError, OverflowError)', 'kind': 'floor', 'text': x, 'pat': f_}, n)
+                    return Val('S', f_, const='int')
                 if m == 'floor': return Val('S', f'(floor_ O {tr.S(args[0])})')
                 if m == 'isclose': return Val('B', f'(isclose O {tr.S(args[0])} {tr.S(args[1])})')
                 self.fail(f'math.{m}', n)
@@ -1016,6 +1264,17 @@ class FunTx:
                 return self.callfun(cls, a, [recv] + vals, n, consts)
             if kind == 'localfun':
                 return self.inline(self.localfuns[fv.const[1]], args, kwargs, n)
+            if kind == 'asSegments':
+                if args or kwargs: self.fail('asSegments with arguments', n)
+                return Val(('L', 'SEG'), fv.const[1].tx)
+            if kind == 'bounddyn':
+                _, a, recv = fv.const
+                def one(cls, sv):
+                    path, fd, defcls = find_def(cls, a)
+                    vals = self.bindargs(fd, args, kwargs, n, skip_self=True)
+                    vals, consts = self.coerce_args(cls, a, vals, n)
+                    return self.callfun(cls, a, [sv] + vals, n, consts)
+                return self.seg_dispatch(recv, one, n)
             if kind == 'cdfmethod':
                 _, mname, recv = fv.const
                 fd2 = find_cdf_method(mname)
@@ -1106,7 +1365,7 @@ class FunTx:
                 lets.append(f'let {nm} := {v.tx} in ')
                 env[p] = Val(v.ty, nm)
             else: env[p] = v
-        body = self.block(fd.body, env, lambda e: Val('K', const=None), lambda v, e: v)
+        body = self.in_ctx('pure', lambda: self.block(fd.body, env, lambda e: Val('K', const=None), lambda v, e: v))
         if body.ty in ('I', 'K', 'FL', 'TUP'): 
             if lets: self.fail('inlined function returns translation-time structure under lets', n)
             return body
@@ -1117,8 +1376,17 @@ class FunTx:
         if not stmts: return False
         s = stmts[-1]
         if isinstance(s, (ast.Return, ast.Raise)): return True
+        if isinstance(s, (ast.Break, ast.Continue)): return True       # leaves the statement list (towards the enclosing loop)
         if isinstance(s, ast.If): return self.always_returns(s.body) and self.always_returns(s.orelse)
         return False
+
+    def has_exit(self, stmts):
+        """a return, or a break/continue that belongs to a loop OUTSIDE stmts"""
+        def walk(x):
+            if isinstance(x, (ast.Return, ast.Break, ast.Continue)): return True
+            if isinstance(x, (ast.For, ast.While)): return self.has_return([x])
+            return any(walk(c) for c in ast.iter_child_nodes(x))
+        return any(walk(st) for st in stmts)
 
     def has_return(self, stmts):
         for s in stmts:
@@ -1190,8 +1458,12 @@ class FunTx:
         return Val(self.tr.rtype(r), t)
 
     def block(self, stmts, env, cont, ret):
-        tr = self.tr
         if not stmts: return cont(env)
+        mark = len(self.pending)
+        return self.flush(mark, self.block1(stmts, env, cont, ret), stmts[0])
+
+    def block1(self, stmts, env, cont, ret):
+        tr = self.tr
         s, rest = stmts[0], stmts[1:]
         k = lambda e: self.block(rest, e, cont, ret)
         if isinstance(s, ast.Expr) and isinstance(s.value, ast.Constant): return k(env)
@@ -1210,6 +1482,16 @@ class FunTx:
             if len(s.targets) != 1: self.fail('multiple targets', s)
             t = s.targets[0]
             v = self.expr(s.value, env)
+            nx = rest[0] if rest else None
+            if isinstance(t, ast.Name) and isinstance(nx, ast.Assign) and len(nx.targets) == 1 and isinstance(nx.targets[0], ast.Attribute) \
+                    and nx.targets[0].attr == '_orig' and isinstance(nx.targets[0].value, ast.Name) and nx.targets[0].value.id == t.id:
+                # x = Line(..); x._orig = c   -- the new Line, tagged: an EDGE.  Only for a Line built on the spot (nothing else refers to it)
+                if not (isinstance(s.value, ast.Call) and isinstance(s.value.func, ast.Name) and s.value.func.id == 'Line' and 'Line' not in env and v.ty == 'seg2'):
+                    self.fail('_orig set on something that is not a Line constructed by the previous statement', nx)
+                o = self.expr(nx.value, env)
+                if o.ty not in SEGN: self.fail(f'_orig set to a {o.ty!r}', nx)
+                ev = Val('EDGE', f'({v.tx}, Some ({[c for c, kd in SEGSUM if kd == o.ty][0]} {o.tx}))')
+                return self.bind(t.id, ev, env, lambda e: self.block(rest[1:], e, cont, ret))
             return self.assign(t, v, env, k, s)
         if isinstance(s, ast.AugAssign):
             if isinstance(s.target, ast.Attribute) and isinstance(s.target.value, ast.Name) and s.target.value.id in env \
@@ -1228,6 +1510,11 @@ class FunTx:
             return self.stmt_if(s, rest, env, cont, ret)
         if isinstance(s, ast.For):
             return self.stmt_for(s, rest, env, cont, ret)
+        if isinstance(s, ast.While):
+            return self.stmt_while(s, rest, env, cont, ret)
+        if isinstance(s, (ast.Break, ast.Continue)):
+            if not self.loop_stack or self.loop_stack[-1] is None: self.fail(f'{type(s).__name__.lower()} outside a while loop', s)
+            return self.loop_stack[-1][0 if isinstance(s, ast.Break) else 1](env)
         self.fail(f'statement {type(s).__name__}', s)
 
     def assign(self, t, v, env, k, s):
@@ -1351,6 +1638,7 @@ class FunTx:
                 if f.attr == 'append':
                     if lty == 'FL':
                         return self.bind(nm, Val('FL', items=recv.items + [args[0]]), env, k)
+                    if lty[1] == '?': lty = ('L', tr.rtype(args[0]))      # first append to a list whose element type is not known yet
                     return self.bind(nm, Val(lty, f'({recv.tx} ++ [{tr.text(args[0]) if lty[1] != "S" else tr.S(args[0])}])'), env, k)
                 if f.attr == 'extend':
                     a = args[0]
@@ -1360,6 +1648,11 @@ class FunTx:
                 if f.attr == 'sort':
                     if lty == 'FL': recv = Val(tr.rtype(recv), tr.text(recv))
                     return self.bind(nm, Val(recv.ty, f'(sort_ O {recv.tx})'), env, k)
+                if f.attr == 'pop' and lty != 'FL' and len(args) == 1 and not kwargs and args[0].ty == 'I' and args[0].const == 0:
+                    # l.pop(0) as a statement (the popped item is dropped): only where l is known to be h :: t
+                    if not (isinstance(recv.const, tuple) and recv.const[0] == 'cons'): self.fail('pop(0) from a list not known to be non-empty', s)
+                    e2 = dict(env); e2[nm] = Val(lty, recv.const[2])
+                    return k(e2)
             if ('BoundingBox', f.attr) in OPT_SELF and (recv.ty in ('BB', 'UBB') or recv.ty == ('O', 'BB')):
                 cls = 'BoundingBox'
                 path, fd, defcls = find_def(cls, f.attr)
@@ -1391,8 +1684,42 @@ class FunTx:
             return (t.left.id, env[t.left.id], 'isnone' if isnone else 'notnone')
         return None
 
+    def list_test(self, t, env):
+        """`len(X) == 0`, `len(X) > 0`, `len(X) != 0`, `X`, `not X` for a dynamic list variable X -> (X, True iff the test says X is empty)"""
+        neg = False
+        if isinstance(t, ast.UnaryOp) and isinstance(t.op, ast.Not): neg = True; t = t.operand
+        def dyn(x): return isinstance(x, ast.Name) and x.id in env and isinstance(env[x.id].ty, tuple) and env[x.id].ty[0] == 'L' and env[x.id].tx is not None
+        if dyn(t): return (t.id, neg)
+        if isinstance(t, ast.Compare) and len(t.ops) == 1 and isinstance(t.left, ast.Call) and isinstance(t.left.func, ast.Name) and t.left.func.id == 'len' \
+                and 'len' not in env and 'len' not in self.localfuns and not t.left.keywords and len(t.left.args) == 1 and dyn(t.left.args[0]) \
+                and isinstance(t.comparators[0], ast.Constant) and type(t.comparators[0].value) is int and t.comparators[0].value == 0:
+            op = t.ops[0]
+            if isinstance(op, ast.Eq): return (t.left.args[0].id, not neg)
+            if isinstance(op, (ast.Gt, ast.NotEq)): return (t.left.args[0].id, neg)
+        return None
+
+    def cons_view(self, X, env):
+        """environment in which the dynamic list X is known to be h :: t"""
+        h, t = self.fresh(f'v_{X}_hd'), self.fresh(f'v_{X}_tl')
+        e2 = dict(env); e2[X] = Val(env[X].ty, f'({h} :: {t})', const=('cons', h, t))
+        return e2, h, t
+
     def stmt_if(self, s, rest, env, cont, ret):
         tr = self.tr
+        lt = self.list_test(s.test, env) if self.effects else None
+        if lt is not None:
+            # a test of emptiness of a list is a match: the non-empty side sees it as h :: t (so l[0], l.pop(0) cannot fail there)
+            X, empty = lt
+            nil_b, cons_b = (s.body, s.orelse) if empty else (s.orelse, s.body)
+            rn, rc = self.always_returns(nil_b), self.always_returns(cons_b)
+            if not (rn or rc) and rest: self.fail('emptiness test neither side of which leaves', s)
+            eN = dict(env); eN[X] = Val(env[X].ty, '[]')
+            eC, h, t = self.cons_view(X, env)
+            a = self.block(nil_b + ([] if rn else rest), eN, cont, ret)
+            b = self.block(cons_b + ([] if rc else rest), eC, cont, ret)
+            if a.ty == 'K' and a.const is None and b.ty == 'K' and b.const is None: return a
+            x, y, ty = self.unify(a, b, s)
+            return Val(ty, f'(match {env[X].tx} with\n  | [] =>\n  {x}\n  | {h} :: {t} =>\n  {y}\n  end)')
         nar = self.narrow(s.test, env)
         if nar is not None:
             name, ov, mode = nar
@@ -1420,7 +1747,7 @@ class FunTx:
         if c.ty == 'K':
             return self.block((s.body if c.const else s.orelse) + rest, env, cont, ret)
         rb, ro = self.always_returns(s.body), self.always_returns(s.orelse)
-        if rb or ro or self.has_return(s.body) or self.has_return(s.orelse):
+        if rb or ro or self.has_exit(s.body) or self.has_exit(s.orelse):
             # at least one side leaves the function: no join needed (the rest is duplicated only on mixed paths)
             a = self.block(s.body + ([] if rb else rest), env, cont, ret)
             b = self.block(s.orelse + ([] if ro else rest), env, cont, ret)
@@ -1431,7 +1758,17 @@ class FunTx:
         if not names: return self.block(rest, env, cont, ret)
         def branch(stmts):
             return self.with_live(names, lambda: self.block(stmts, env, lambda e: Val('TUP', items=[self.need(e, v, s) for v in names]), lambda v, e: self.fail('return in joined branch', s)))
-        a, b = branch(s.body), branch(s.orelse)
+        saved = (self.counter, len(self.pending))
+        try:
+            a, b = branch(s.body), branch(s.orelse)
+        except EffectInJoin:
+            # a branch consumes fuel or may raise: it cannot be a value joined by `if`; each branch is continued by the rest instead
+            if not self.effects: raise
+            self.counter = saved[0]; del self.pending[saved[1]:]
+            a = self.block(s.body + rest, env, cont, ret)
+            b = self.block(s.orelse + rest, env, cont, ret)
+            if a.ty == 'K' and a.const is None and b.ty == 'K' and b.const is None: return a
+            return self.join(c, a, b, s)
         # a, b are TUP possibly wrapped in lets: normalise through text
         x, y, ty = self.unify_wrapped(a, b, names, s)
         e2 = dict(env)
@@ -1509,8 +1846,147 @@ class FunTx:
         ast.copy_location(s2, s); ast.fix_missing_locations(s2)
         return X, cur, prev, s2
 
+    def stmt_while(self, s, rest, env, cont, ret):
+        """`while test: body` as a fuelled Fixpoint of its own
+
+            Fixpoint <fn>_loop<k> {T} (O : Ops T) [(fuel0 : nat)] (fuel : nat) <captured variables> <carried variables> {struct fuel}
+              : option (<carried tuple>) :=
+              match fuel with
+              | 0 => None                                             (* out of fuel: never a normal value *)
+              | S fuel_ => if test then <body>; <fn>_loop<k> O [fuel0] fuel_ <captured> <carried'> else Some (<carried>)
+              end.
+
+        carried  = the local variables (re)bound in the body that exist before the loop (`x = e`, `x += e`, `l.append(e)`, `l.pop(0)`);
+        captured = the other variables read; they are parameters, so the body cannot update them;
+        fuel0    = the budget handed to loops / fuelled functions invoked from the body (present only when there are any);
+        `break` is `Some (<carried>)`, `continue` the recursive call.  A test `len(l) > 0 [and p]` on a carried list is a match on
+        l, and the body (and p) see l as h :: t.  No return inside a loop.  When the body can raise (only in a function declared
+        with 'exc'), the Fixpoint returns `option (outcome (<carried tuple>))`: `Some (Raises e)` at the raise, `Some (Returns ..)` at the exit."""
+        tr = self.tr
+        if self.ctx_stack[-1] not in ('fun', 'loop'): self.fail('while loop inside a fold / inlined function', s)
+        if s.orelse: self.fail('while-else', s)
+        if self.has_return(s.body): self.fail('return inside a while loop', s)
+        for x in ast.walk(s.test):
+            if isinstance(x, (ast.NamedExpr, ast.Lambda, ast.ListComp, ast.Await, ast.Yield)): self.fail('while test too complex', s)
+        k = self.loop_ids.setdefault(id(s), len(self.loop_ids) + 1)
+        lname = f'{self.cname}_loop{k}'
+        budget = self.budget()                     # the loop itself runs on the budget of the enclosing context
+        names = self.assigned(s.body, env)
+        after = self.live_after(rest)
+        for v in names:
+            if v not in env and v in after: self.fail(f'variable {v} first assigned inside a while loop and used after it', s)
+        carried = [v for v in names if v in env]
+        if not carried: self.fail('while loop that carries no variable', s)
+        inits = [self.need(env, v, s) for v in carried]
+        tys = [tr.rtype(a) for a in inits]
+        e1, cparams = {}, []
+        for nm in sorted((self.loads([s]) & set(env)) - set(carried)):
+            v = env[nm]
+            if v.ty in ('K', 'I'): e1[nm] = v; continue
+            if v.tx is None or not (isinstance(v.ty, tuple) or v.ty in ('S', 'B', 'P', 'M', 'BB', 'IX', 'PATH', 'SEG', 'EDGE') or v.ty in SEGN):
+                self.fail(f'while loop captures {nm}, a {v.ty!r}', s)
+            pn = 'self_' if nm == 'self' else 'v_' + nm
+            e1[nm] = Val(v.ty, pn); cparams.append((pn, v.ty, v.tx))
+        lty = ('F', ('LOOP', lname))
+
+        def attempt(tys):
+            e = dict(e1)
+            for nm, t in zip(carried, tys): e[nm] = Val(t, 'v_' + nm)
+            seen = []
+            def pack(e2):
+                vals = [self.need(e2, v, s) for v in carried]
+                seen.append([tr.rtype(x) for x in vals])
+                return vals
+            def exit_(e2):
+                vals = pack(e2)
+                return Val(lty, '(Some @RETO@' + (tr.text(Val('TUP', items=vals)) if len(vals) > 1 else tr.text(vals[0])) + '@RETC@)')
+            def again(e2):
+                vals = pack(e2)
+                return Val(lty, f'({lname} O @FUEL0@fuel_ ' + ' '.join([p for p, _, _ in cparams] + [tr.text(x) for x in vals]) + ')')
+            noret = lambda v, e2: self.fail('return inside a while loop', s)
+            self.loop_stack.append((exit_, again)); self.ctx_stack.append('loop'); self.fuel_names.append('fuel0'); self.fuel_used.append(False)
+            self.loop_flags.append({'exc': False})
+            try:
+                body = self.with_live(carried, lambda: self.loop_test(s, e, lambda e2: self.block(s.body, e2, again, noret), exit_))
+                used, exc = self.fuel_used[-1], self.loop_flags[-1]['exc']
+            finally:
+                self.loop_stack.pop(); self.ctx_stack.pop(); self.fuel_names.pop(); self.fuel_used.pop(); self.loop_flags.pop()
+            text = tr.text(body).replace('@FUEL0@', 'fuel0 ' if used else '').replace('@RETO@', '(Returns ' if exc else '').replace('@RETC@', ')' if exc else '')
+            return text, used, exc, seen
+
+        for _ in range(4):
+            saved = (self.counter, tr.counter)
+            self.trial += 1
+            try: _, _, _, seen = attempt(tys)
+            finally: self.trial -= 1
+            self.counter, tr.counter = saved
+            new = list(tys)
+            for row in seen:
+                for i, t in enumerate(row):
+                    new[i] = tmatch(new[i], t)
+                    if new[i] is None: self.fail(f'while loop changes the type of {carried[i]}: {tys[i]!r} / {t!r}', s)
+            if new == tys: break
+            tys = new
+        else:
+            self.fail('types of the carried variables do not settle', s)
+        def unresolved(t): return t == '?' or (isinstance(t, tuple) and any(unresolved(x) for x in (t[1] if t[0] == 'T' else t[1:])))
+        if any(unresolved(t) for t in tys): self.fail(f'cannot infer the types of the carried variables {carried}: {tys!r}', s)
+        body, used, exc, _ = attempt(tys)
+        cty = coqty(('T', tuple(tys))) if len(tys) > 1 else coqty(tys[0])
+        if exc: cty = f'outcome ({cty})'
+        params = ''.join(f' ({p} : {coqty(t)})' for p, t, _ in cparams) + ''.join(f' (v_{nm} : {coqty(t)})' for nm, t in zip(carried, tys))
+        text = (f'(* {self.path}: {self.fd.name}, the while loop at line {s.lineno} *)\n'
+                f'Fixpoint {lname} {{T : Type}} (O : Ops T){" (fuel0 : nat)" if used else ""} (fuel : nat){params} {{struct fuel}} : option ({cty}) :=\n'
+                f'  match fuel with\n  | Datatypes.O => None\n  | S fuel_ =>\n  {body}\n  end.\n')
+        if self.trial == 0:
+            if lname in tr.loops and tr.loops[lname] != text: self.fail('one while loop translates to two different definitions (it is reached with different environments)', s)
+            if lname not in tr.loops:
+                tr.loops[lname] = text
+                tr.out[self.file].append(text)
+        call = f'({lname} O {budget + " " if used else ""}{budget} ' + ' '.join([tx for _, _, tx in cparams] + [tr.text(a) for a in inits]) + ')'
+        e2 = dict(env)
+        pat = None
+        for nm, t in zip(carried, tys):
+            fn = self.fresh('v_' + nm)
+            e2[nm] = Val(t, fn)
+            pat = fn if pat is None else f'({pat}, {fn})'
+        r = self.block(rest, e2, cont, ret)
+        if r.ty == 'K' and r.const is None: return r
+        if is_mtype(tr.rtype(r)) is None or 'fuel' not in is_mtype(tr.rtype(r))[0]:
+            raise EffectInJoin(f'{self.path}:{s.lineno} ({self.fd.name}): the code after a while loop is not a fuelled result')
+        if exc:
+            # the loop may have raised: so may the context it is invoked from (the function, or an enclosing loop)
+            if self.ctx_stack[-1] == 'loop': self.loop_flags[-1]['exc'] = True
+            self.occurred.add('exc')
+            return self.retext(r, f'match {call} with\n  | None => None\n  | Some (Raises e_) => {self.raise_text("e_")}\n  | Some (Returns {pat}) =>\n  {tr.text(r)}\n  end')
+        return self.retext(r, f'match {call} with\n  | None => None\n  | Some {pat} =>\n  {tr.text(r)}\n  end')
+
+    def loop_test(self, s, e, body_k, exit_k):
+        """the test of a while loop: plain, or `len(X) > 0 [and rest]` / `X [and rest]` on a dynamic list variable X"""
+        test = s.test
+        conj = list(test.values) if isinstance(test, ast.BoolOp) and isinstance(test.op, ast.And) else [test]
+        lt = self.list_test(conj[0], e)
+        def cond(c, body, ex):
+            if c.ty == 'K': return body() if c.const else ex()
+            b, x = body(), ex()
+            return Val(b.ty, f'(if {c.tx} then\n  {self.tr.text(b)}\n  else {self.tr.text(x)})')
+        if lt is not None and not lt[1]:
+            X = lt[0]
+            e2, h, t = self.cons_view(X, e)
+            c = self.conj(self.purely(lambda: [self.truth(self.expr(c_, e2), s) for c_ in conj[1:]]), 'andb')
+            inner = cond(c, lambda: body_k(e2), lambda: exit_k(e2))
+            ex = exit_k(e)
+            return Val(inner.ty, f'match {e[X].tx} with\n  | [] => {self.tr.text(ex)}\n  | {h} :: {t} =>\n  {self.tr.text(inner)}\n  end')
+        c = self.purely(lambda: self.truth(self.expr(test, e), s))
+        return cond(c, lambda: body_k(e), lambda: exit_k(e))
+
     def stmt_for(self, s, rest, env, cont, ret):
         tr = self.tr
+        def own_exit(x):
+            if isinstance(x, (ast.Break, ast.Continue)): return True
+            if isinstance(x, (ast.For, ast.While)): return False
+            return any(own_exit(c) for c in ast.iter_child_nodes(x))
+        if any(own_exit(b) for b in s.body): self.fail('break/continue in a for loop', s)
         pl = self.pairs_loop(s, env)
         if pl is not None:
             X, cur, prev, s2 = pl
@@ -1560,7 +2036,7 @@ class FunTx:
                 names = [v for v in self.assigned(s.body, env) if v != x]
                 if names: self.fail('find-first loop with assignments', s)
                 none = Val('K', const=None)
-                body = self.block(s.body, e1, lambda e: none, lambda v, e: Val('SOME', items=[ret(v, e)]))
+                body = self.in_ctx('pure', lambda: self.block(s.body, e1, lambda e: none, lambda v, e: Val('SOME', items=[ret(v, e)])))
                 bt, rty = self.optionise(body, s)
                 r = self.block(rest, env, cont, ret)
                 nm = self.fresh('r')
@@ -1572,7 +2048,7 @@ class FunTx:
             tys = [tr.rtype(a) for a in accs]
             inner = {nm: self.fresh('v_' + nm) for nm in names}
             for nm, t in zip(names, tys): e1[nm] = Val(t, inner[nm])
-            body = self.with_live(names, lambda: self.block(s.body, e1, lambda e: Val('TUP', items=[self.need(e, v, s) for v in names]), lambda v, e: self.fail('return in fold', s)))
+            body = self.in_ctx('pure', lambda: self.with_live(names, lambda: self.block(s.body, e1, lambda e: Val('TUP', items=[self.need(e, v, s) for v in names]), lambda v, e: self.fail('return in fold', s))))
             pat = None
             for nm in names: pat = inner[nm] if pat is None else f'({pat}, {inner[nm]})'
             init = tr.text(Val('TUP', items=accs)) if len(accs) > 1 else tr.text(accs[0])
@@ -1605,10 +2081,11 @@ class FunTx:
         tys = [tr.rtype(a) for a in accs]
         inner = {nm: self.fresh('v_' + nm) for nm in names}
         for nm, t in zip(names, tys): e1[nm] = Val(t, inner[nm])
-        body = self.with_live(names, lambda: self.block(s.body, e1, lambda e: Val('TUP', items=[self.need(e, v, s) for v in names]), lambda v, e: self.fail('return in fold', s)))
+        body = self.in_ctx('pure', lambda: self.with_live(names, lambda: self.block(s.body, e1, lambda e: Val('TUP', items=[self.need(e, v, s) for v in names]), lambda v, e: self.fail('return in fold', s))))
         if body.ty == 'TUP':
-            for b, t in zip(body.items, tys):
+            for i, (b, t) in enumerate(zip(body.items, tys)):
                 if tmatch(tr.rtype(b), t) is None: self.fail(f'loop changes the type of an accumulator: {tr.rtype(b)!r} / {t!r}', s)
+                tys[i] = tmatch(tr.rtype(b), t)
         pat = None
         for nm in names: pat = inner[nm] if pat is None else f'({pat}, {inner[nm]})'
         init = tr.text(Val('TUP', items=accs)) if len(accs) > 1 else tr.text(accs[0])
@@ -1721,7 +2198,55 @@ TARGETS += [('QuadraticBezier', 'derivative'), ('CubicBezier', 'derivative'),
 SEGMENT_TARGETS = [(c, m) for c in ('Line', 'QuadraticBezier', 'CubicBezier') for m in ('clone', 'round')]
 FIT_TARGETS = [('mod:utils/curvefitter.py', b) for b in ('B0', 'B1', 'B2', 'B3')] + [('CurveFit', 'computeHook'), ('CurveFit', 'estimateBi'),
                                                                                           ('CurveFit', 'chordLengthParameterize')]
-TARGETS += SHAPE_TARGETS + BOUNDS_TARGETS + SEGMENT_TARGETS + FIT_TARGETS
+SAMPLE_TARGETS = [(c, m) for m in ('sample', 'regularSampleTValue', 'regularSample') for c in ('Line', 'QuadraticBezier', 'CubicBezier')]
+PATH_TARGETS = [('BezierPath', 'length'), ('BezierPath', 'pointAtTime'), ('BezierPath', 'lengthAtTime')] + \
+               [(c, 'flatten') for c in ('Line', 'QuadraticBezier', 'CubicBezier')] + \
+               [('BezierPath', m) for m in ('sample', 'regularSampleTValue', 'regularSample')]
+TARGETS += SHAPE_TARGETS + BOUNDS_TARGETS + SEGMENT_TARGETS + FIT_TARGETS + SAMPLE_TARGETS + PATH_TARGETS
+
+# fixed text at the top of a generated file: the types and list helpers the effectful definitions are written with
+PRELUDE = {'Sample': '''(* A function with a data-dependent `while` loop takes [fuel : nat] -- the number of iterations EVERY loop invocation may
+   use -- and returns an option: None = the fuel ran out (never a normal value).  A function that can raise one of the
+   modelled Python exceptions returns an [outcome]; both: [option (outcome _)].  ZeroDivisionError is NOT modelled here:
+   as everywhere in Gen, `/` is the total [dvd]. *)
+Inductive pyexc : Set := PyIndexError | PyValueError | PyOverflowError.
+Inductive outcome (A : Type) : Type := Returns (a : A) | Raises (e : pyexc).
+Arguments Returns {A}. Arguments Raises {A}.
+(* l[-1]; None = IndexError *)
+Fixpoint last_error {A : Type} (l : list A) : option A :=
+  match l with [] => None | [a] => Some a | _ :: r => last_error r end.
+(* [f x for x in l] when f may raise: in list order, the first exception wins *)
+Fixpoint map_outcome {A B : Type} (f : A -> outcome B) (l : list A) : outcome (list B) :=
+  match l with
+  | [] => Returns []
+  | a :: r => match f a with
+              | Raises e => Raises e
+              | Returns b => match map_outcome f r with Raises e => Raises e | Returns bs => Returns (b :: bs) end
+              end
+  end.
+(* list access by a Python int held in a scalar (Ops has no T -> nat): l[k] and l[:k] for k >= 0 by counting down ... *)
+Fixpoint nth_T {T A : Type} (O : Ops T) (l : list A) (k : T) : option A :=
+  match l with
+  | [] => None
+  | a :: r => if ltb O k (ofZ O 1) then Some a else nth_T O r (sub O k (ofZ O 1))
+  end.
+Fixpoint take_T {T A : Type} (O : Ops T) (l : list A) (k : T) : list A :=
+  match l with
+  | [] => []
+  | a :: r => if ltb O k (ofZ O 1) then [] else a :: take_T O r (sub O k (ofZ O 1))
+  end.
+Fixpoint drop_T {T A : Type} (O : Ops T) (l : list A) (k : T) : list A :=
+  match l with
+  | [] => []
+  | _ :: r => if ltb O k (ofZ O 1) then l else drop_T O r (sub O k (ofZ O 1))
+  end.
+(* ... and Python's reading of a negative int: l[k] is l[len(l) + k] (None = IndexError), l[:k] drops the last -k items *)
+Definition py_index {T A : Type} (O : Ops T) (l : list A) (k : T) : option A :=
+  if ltb O k (ofZ O 0) then nth_T O (rev l) (sub O (neg O k) (ofZ O 1)) else nth_T O l k.
+Definition py_slice_to {T A : Type} (O : Ops T) (l : list A) (k : T) : list A :=
+  if ltb O k (ofZ O 0) then rev (drop_T O (rev l) (neg O k)) else take_T O l k.
+
+'''}
 
 
 def header(file, deps):
@@ -1751,7 +2276,7 @@ def generate(outdir, targets=None):
             tr.inprogress.clear()
     texts = {}
     for i, f in enumerate(FILE_ORDER):
-        texts[f] = header(f, [d for d in FILE_ORDER[:i] if d not in LEAF_FILES]) + '\n'.join(tr.out[f])
+        texts[f] = header(f, [d for d in FILE_ORDER[:i] if d not in LEAF_FILES]) + PRELUDE.get(f, '') + '\n'.join(tr.out[f])
     os.makedirs(outdir, exist_ok=True)
     changed = []
     for f, t in texts.items():
